@@ -3,7 +3,6 @@ package c15wit
 import (
 	"testing"
 
-	"github.com/nspcc-dev/neo-go/pkg/core/transaction"
 	"github.com/nspcc-dev/neo-go/pkg/io"
 	"github.com/nspcc-dev/neo-go/pkg/neotest"
 	"github.com/nspcc-dev/neo-go/pkg/vm/emit"
@@ -60,7 +59,7 @@ func (w *world) blockCells(t *testing.T, deep *universe, emitEv func(map[string]
 		for i := range cp.probe {
 			ci := deep.index[prefixID(id, i)]
 			for k, a := range blockAccts {
-				checks[i] = append(checks[i], check{w.hashOf(a), 0})
+				checks[i] = append(checks[i], check{w.acct(a, false), 0})
 				slots[i] = append(slots[i], slot{ci, k})
 			}
 		}
@@ -123,5 +122,3 @@ func (w *world) blockCells(t *testing.T, deep *universe, emitEv func(map[string]
 	}
 	return n
 }
-
-var _ = transaction.Global
